@@ -38,10 +38,14 @@
    is written AFTER the Close frame (named deviation: NoDataAfterCloseOnWire).
    CloseLatch = TRUE is the repaired design: _write_websocket_frame refuses (raises).
 
-   UseShield / SmallTakesLock = FALSE are self-test mutants (mechanism removed).       *)
+   UseShield / SmallTakesLock = FALSE are self-test mutants (mechanism removed);
+   OvrTakesLock = FALSE: only small frames with a per-message override skip the lock (a
+   private compressor does not make the send independent: the frame still enters the
+   peer's single inflate window, so it must not overtake a frame that is being compressed). *)
 EXTENDS Naturals, Sequences, FiniteSets, TLC
 
-CONSTANTS Senders, Prog, Compress, Takeover, MaxCancel, OverrideFix, CloseLatch, UseShield, SmallTakesLock
+CONSTANTS Senders, Prog, Compress, Takeover, MaxCancel, OverrideFix, CloseLatch, UseShield, SmallTakesLock,
+          OvrTakesLock
 
 VARIABLES v
 
@@ -134,7 +138,7 @@ StartSend(st0, s) ==
     IF st.closing /\ M(m).op = "data" THEN AfterSend(st, s, "raised")
     ELSE IF ~Deflated(m) THEN AfterSend(Write(st, m), s, "returned")
     ELSE IF ~Large(m) THEN
-        IF ~SmallTakesLock THEN AfterSend(Write(Consume(st, m), m), s, "returned")
+        IF ~SmallTakesLock \/ (M(m).ovr /\ ~OvrTakesLock) THEN AfterSend(Write(Consume(st, m), m), s, "returned")
         ELSE IF FastAcquire(st) THEN AfterSend(Release(Write(Consume([st EXCEPT !.held = TRUE], m), m)), s, "returned")
         ELSE [st EXCEPT !.pc[s] = "lockwait", !.waiters = Append(@, [w |-> E("s", s), st |-> "pending"])]
     ELSE [StartInner(st, m) EXCEPT !.pc[s] = "shield"]
